@@ -114,7 +114,22 @@ func (e *Engine) verify2(t *Target) {
 	for _, p := range fn.Params {
 		args = append(args, e.symbolic(s, "p_"+p.Name(), p.Type()))
 	}
-	f := e.newFrame(s, fn, args, nil, nil, true)
+	// a closure under contract (Durable.Add$1, ...): every captured variable is a fresh cell with arbitrary contents
+	var bind []Val
+	capVal := map[string]Val{}
+	for _, fv := range fn.FreeVars {
+		et := fv.Type().(*types.Pointer).Elem()
+		r := e.newRef(s)
+		p := e.ptrFromRef(r, et)
+		v := e.symbolic(s, "c_"+fv.Name(), et)
+		s.spec++
+		e.store(s, p, v)
+		s.spec--
+		bind = append(bind, p)
+		capVal[fv.Name()] = v
+	}
+	e.capVal = capVal
+	f := e.newFrame(s, fn, args, bind, nil, true)
 	s.frames = []*Frame{f}
 	need := neededOlds(fn, t.D.Posts)
 	for i, p := range fn.Params {
@@ -134,6 +149,10 @@ func (e *Engine) verify2(t *Target) {
 		pre := e.specFunc(t, t.D.Pre)
 		var pa []Val
 		for _, pp := range pre.Params {
+			if cv, ok := capVal[pp.Name()]; ok {
+				pa = append(pa, cv)
+				continue
+			}
 			pa = append(pa, args[paramIndex(fn, pp.Name())])
 		}
 		v := e.evalPure(s, pre, pa, nil).(Term)
@@ -189,7 +208,11 @@ func (e *Engine) verify2(t *Target) {
 					}
 					pa = append(pa, fs.ret[i])
 				default:
-					pa = append(pa, args[paramIndex(fn, nm)])
+					if cv, ok := capVal[nm]; ok {
+						pa = append(pa, cv) // the captured variable's value at entry
+					} else {
+						pa = append(pa, args[paramIndex(fn, nm)])
+					}
 				}
 			}
 			// a conjunctive postcondition is discharged conjunct by conjunct (small VCs are the stable ones)
